@@ -25,6 +25,83 @@ class C09(ProgramProperty):
     def budget(self, tier):
         return 1500 if tier == "quick" else 40000
 
+    def assemble(self, convs, probes_p, probes_u, subset, sub_uri_probes):
+        """The program for one list of input converters: observe the inputs, chain them in both case modes, chain the
+        first one alone, chain nothing, restrict the first one to `subset`."""
+        steps = []
+        for i, c in enumerate(convs):
+            if all(r["pat"] is None for r in c) and (len(c) + len(probes_p) + i) % 3 == 0:
+                # an input that *acquired* its synonyms: loaded from a plain prefix map, extended by merges
+                steps.append({"op": "load_pm", "dst": i, "data": [[r["p"], r["u"]] for r in c]})
+                for r in c:
+                    for x in r["ps"]:
+                        steps.append({"op": "add_prefix", "c": i, "p": x, "u": r["u"], "merge": True, "_build": True})
+                    for x in r["us"]:
+                        steps.append({"op": "add_prefix", "c": i, "p": r["p"], "u": x, "merge": True, "_build": True})
+            else:
+                steps.append(init_step(i, c))
+            steps += [q(i, "records"), q(i, "delimiter"), q(i, "get_prefixes", s=True),
+                      q(i, "get_uri_prefixes", s=True)]
+        srcs = list(range(len(convs)))
+        for i in srcs:
+            for p in probes_p:
+                steps += [q(i, "expand_pair", p, "1"), q(i, "standardize_prefix", p)]
+        for dst, cs in ((10, True), (11, False)):
+            steps.append({"op": "chain", "dst": dst, "srcs": srcs, "cs": cs, "container": "tuple" if (len(convs) + dst) % 3 == 0 else "list"})
+            steps += [q(dst, "records"), q(dst, "delimiter"), q(dst, "get_prefixes", s=True),
+                      q(dst, "get_uri_prefixes", s=True)]
+            for p in probes_p:
+                steps += [q(dst, "expand_pair", p, "1"), q(dst, "standardize_prefix", p)]
+            for u in probes_u:
+                steps += [q(dst, "compress", u)]
+        steps.append({"op": "chain", "dst": 12, "srcs": [0], "cs": True})
+        steps += [q(12, "records"), q(12, "delimiter")]
+        steps.append({"op": "chain", "dst": 13, "srcs": [], "cs": True})
+        parent = convs[0]
+        pp = gen.all_prefixes(parent)
+        steps.append({"op": "sub", "dst": 20, "src": 0, "prefixes": [cps(x) for x in subset],
+                      "container": ["list", "set", "tuple", "generator", "iter", "dict_keys"][(len(subset) + len(parent) + len(pp)) % 6]})
+        steps += [q(20, "records"), q(20, "delimiter")]
+        for p in pp[:6]:
+            steps += [q(20, "expand_pair", p, "1"), q(0, "expand_pair", p, "1")]
+        for u in sub_uri_probes:
+            steps += [q(20, "compress", u), q(0, "compress", u), q(0, "parse_uri", u)]
+        return steps
+
+    def exhaustive(self, tier):
+        """Every pair of one-record converters over names that differ only by case (and a third name), with at most one
+        synonym per side, chained in both orders and both case modes; the first one restricted by each of its names."""
+        import itertools
+        import multiprocessing as mp
+
+        P, U = ["a", "A", "b"], ["u", "U", "v"]
+        shapes = []
+        for p, u in itertools.product(P, U):
+            opts_p = [[]] + ([[x] for x in P if x != p] if tier != "quick" else [[x] for x in P[:2] if x != p])
+            opts_u = [[]] + ([[y] for y in U if y != u] if tier != "quick" else [])
+            for ps in opts_p:
+                for us in opts_u:
+                    shapes.append(rec(p, u, ps, us))
+        cases = []
+        for r1, r2 in itertools.product(shapes, shapes):
+            convs = [[r1], [r2]]
+            names = gen.all_prefixes([r1])
+            subset = [names[len(cases) % len(names)]]
+            probes_p = sorted(set(gen.all_prefixes([r1, r2])))
+            probes_u = sorted({u + "1" for u in gen.all_uris([r1, r2])})
+            steps = self.assemble(convs, probes_p, probes_u, subset, probes_u[:3])
+            cases.append({"steps": steps, "n": 2, "probes_p": probes_p, "subset": subset, "subkind": "canonical",
+                          "tags": ["small-scope"]})
+        chunks = [cases[i:i + 60] for i in range(0, len(cases), 60)]
+        bad = []
+        with mp.get_context("fork").Pool(16) as pool:
+            for b in pool.imap_unordered(_scope_worker, chunks):
+                bad.extend(b)
+        return {"n": len(cases), "bad": bad[:20], "complete": True,
+                "scope": f"every ordered pair of one-record converters with CURIE prefix in {P}, URI prefix in {U} and at most one "
+                         f"synonym per side ({len(shapes)} shapes), chained case-sensitively and case-insensitively, the first one "
+                         f"restricted by one of its names: {len(cases)} cases"}
+
     def gen(self, rng, tier):
         n = rng.choice([1, 2, 2, 3, 3, 4])
         convs = [gen.records(rng, ":", nrec=rng.choice([1, 2, 3]), forbid_delim=False)]
@@ -77,30 +154,10 @@ class C09(ProgramProperty):
                 seen_u |= set(us)
                 ok.append(r_)
             convs.append(ok or [rec(f"f{k}", f"http://f{k}.example/")])
-        steps = []
-        for i, c in enumerate(convs):
-            steps += [init_step(i, c), q(i, "records"), q(i, "delimiter"), q(i, "get_prefixes", s=True),
-                      q(i, "get_uri_prefixes", s=True)]
-        srcs = list(range(len(convs)))
         allp = sorted({p for c in convs for p in gen.all_prefixes(c)})
         allu = sorted({u for c in convs for u in gen.all_uris(c)})
         probes_p = rng.sample(allp, min(6, len(allp)))
         probes_u = [u + "1" for u in rng.sample(allu, min(5, len(allu)))]
-        for i in srcs:
-            for p in probes_p:
-                steps += [q(i, "expand_pair", p, "1"), q(i, "standardize_prefix", p)]
-        for dst, cs in ((10, True), (11, False)):
-            steps.append({"op": "chain", "dst": dst, "srcs": srcs, "cs": cs})
-            steps += [q(dst, "records"), q(dst, "delimiter"), q(dst, "get_prefixes", s=True),
-                      q(dst, "get_uri_prefixes", s=True)]
-            for p in probes_p:
-                steps += [q(dst, "expand_pair", p, "1"), q(dst, "standardize_prefix", p)]
-            for u in probes_u:
-                steps += [q(dst, "compress", u)]
-        steps.append({"op": "chain", "dst": 12, "srcs": [0], "cs": True})
-        steps += [q(12, "records"), q(12, "delimiter")]
-        steps.append({"op": "chain", "dst": 13, "srcs": [], "cs": True})
-        # sub-converter of the first input
         parent = convs[0]
         pp = gen.all_prefixes(parent)
         kind = rng.choice(["canonical", "synonym", "unknown", "empty", "mixed"])
@@ -116,12 +173,7 @@ class C09(ProgramProperty):
             subset = []
         else:
             subset = rng.sample(pp, min(2, len(pp))) + ["nosuchprefix"]
-        steps.append({"op": "sub", "dst": 20, "src": 0, "prefixes": [cps(x) for x in subset]})
-        steps += [q(20, "records"), q(20, "delimiter")]
-        for p in pp[:6]:
-            steps += [q(20, "expand_pair", p, "1"), q(0, "expand_pair", p, "1")]
-        for u in gen.uri_probes(rng, parent, 4):
-            steps += [q(20, "compress", u), q(0, "compress", u), q(0, "parse_uri", u)]
+        steps = self.assemble(convs, probes_p, probes_u, subset, gen.uri_probes(rng, parent, 4))
         # history: the sub-converter (and the one-element chain) live on and acquire synonyms by merge -- names that
         # belong to parent records outside the subset, or new ones; the parent, a second restriction of it and a
         # second chain of it must be what they were
@@ -163,7 +215,7 @@ class C09(ProgramProperty):
     def laws(self, case, impl):
         # the history tail (merges into derived converters) is judged separately: the laws below speak about the
         # converters as they were derived
-        cut = next((i for i, st in enumerate(case["steps"]) if st["op"] == "add_prefix"), len(case["steps"]))
+        cut = next((i for i, st in enumerate(case["steps"]) if st["op"] == "add_prefix" and not st.get("_build")), len(case["steps"]))
         full_case, full_impl = case, impl
         case = dict(case, steps=case["steps"][:cut])
         impl = impl[:cut]
@@ -266,3 +318,10 @@ class C09(ProgramProperty):
 
 
 PROPERTY = C09()
+
+
+def _scope_worker(cases):
+    from .. import engine
+
+    res = engine.evaluate_cases(PROPERTY, cases)
+    return [r for r in res if r["diffs"] or r["fails"]][:5]
